@@ -9,6 +9,7 @@ import (
 	"bytes"
 	"fmt"
 	"go/ast"
+	"go/constant"
 	"go/token"
 	"go/types"
 	"strings"
@@ -61,10 +62,25 @@ func bkind(t types.Type) string {
 	if _, ok := intType(t); ok {
 		return "int"
 	}
+	if p, ok := t.Underlying().(*types.Pointer); ok {
+		// pointer to a byte array (receiver of the fixed-point methods): the array
+		if a, ok := p.Elem().Underlying().(*types.Array); ok {
+			if b, ok := a.Elem().Underlying().(*types.Basic); ok && b.Kind() == types.Uint8 {
+				return "bytes"
+			}
+		}
+	}
 	switch u := t.Underlying().(type) {
+	case *types.Array:
+		if b, ok := u.Elem().Underlying().(*types.Basic); ok && b.Kind() == types.Uint8 {
+			return "bytes"
+		}
 	case *types.Basic:
 		if u.Info()&types.IsBoolean != 0 {
 			return "bool"
+		}
+		if u.Kind() == types.Float64 || u.Kind() == types.UntypedFloat {
+			return "float"
 		}
 		if u.Kind() == types.UntypedNil {
 			return "nil"
@@ -91,6 +107,8 @@ func coqKind(k string) string {
 		return "bool"
 	case "error":
 		return "option Z"
+	case "float":
+		return "f64"
 	}
 	return "unit"
 }
@@ -139,8 +157,11 @@ func (b bex) monadic() string {
 
 func (e *benv) intWrap(t types.Type, s string) string {
 	it, ok := intType(t)
-	if !ok || it.bits == 0 || it.bits == 64 {
-		return s // int / untyped: unbounded (see Base/GoBytes.v)
+	if !ok || it.bits == 0 {
+		return s
+	}
+	if b, isB := t.Underlying().(*types.Basic); isB && (b.Kind() == types.Int || b.Kind() == types.Uint) {
+		return s // int: unbounded (see Base/GoBytes.v)
 	}
 	return wrap(it, s)
 }
@@ -148,6 +169,13 @@ func (e *benv) intWrap(t types.Type, s string) string {
 func (e *benv) expr(n ast.Expr) bex {
 	tv, have := e.x.info.Types[n]
 	if have && tv.Value != nil {
+		if bkind(tv.Type) == "float" {
+			if iv := constant.ToInt(tv.Value); iv.Kind() == constant.Int {
+				s, _ := zlit(iv)
+				return bex{"(f64_of_Z " + s + ")", true}
+			}
+			return bex{e.bad(n, "non-integral floating-point constant"), false}
+		}
 		if s, ok := zlit(tv.Value); ok {
 			return bex{s, true}
 		}
@@ -236,6 +264,14 @@ func (e *benv) expr(n ast.Expr) bex {
 				return "(" + s[1] + " <=? " + s[0] + ")"
 			})
 		}
+		if bkind(tv.Type) == "float" {
+			fop := map[token.Token]string{token.QUO: "BinarySingleNaN.Bdiv", token.MUL: "BinarySingleNaN.Bmult",
+				token.ADD: "BinarySingleNaN.Bplus", token.SUB: "BinarySingleNaN.Bminus"}[v.Op]
+			if fop == "" {
+				return bex{e.bad(n, "unsupported floating-point operator"), false}
+			}
+			return e.combine([]bex{a, b}, func(s []string) string { return "(" + fop + " mode_NE " + s[0] + " " + s[1] + ")" })
+		}
 		if bkind(tv.Type) != "int" {
 			return bex{e.bad(n, "non-integer arithmetic"), false}
 		}
@@ -262,6 +298,9 @@ func (e *benv) expr(n ast.Expr) bex {
 	case *ast.SliceExpr:
 		if v.Slice3 || bkind(e.x.info.Types[v.X].Type) != "bytes" {
 			return bex{e.bad(n, "unsupported slice expression"), false}
+		}
+		if v.Low == nil && v.High == nil {
+			return e.expr(v.X)
 		}
 		s := e.expr(v.X)
 		lo, hi := bex{"0", true}, bex{"", true}
@@ -299,9 +338,20 @@ func (e *benv) expr(n ast.Expr) bex {
 		if ftv, ok := e.x.info.Types[v.Fun]; ok && ftv.IsType() && len(v.Args) == 1 {
 			a := e.expr(v.Args[0])
 			switch bkind(ftv.Type) {
+			case "float":
+				if bkind(e.x.info.Types[v.Args[0]].Type) == "int" {
+					return e.combine([]bex{a}, func(s []string) string { return "(f64_of_Z " + s[0] + ")" })
+				}
 			case "int":
 				if bkind(e.x.info.Types[v.Args[0]].Type) == "int" {
 					return e.combine([]bex{a}, func(s []string) string { return e.intWrap(ftv.Type, s[0]) })
+				}
+				if bkind(e.x.info.Types[v.Args[0]].Type) == "float" {
+					it, _ := intType(ftv.Type)
+					if !it.signed {
+						// float64 -> unsigned integer, as compiled for amd64 (Base/GoFloat.v)
+						return e.combine([]bex{a}, func(s []string) string { return fmt.Sprintf("(to_uint %d %s)", it.bits, s[0]) })
+					}
 				}
 			case "bytes":
 				if bkind(e.x.info.Types[v.Args[0]].Type) == "bytes" {
@@ -329,6 +379,12 @@ func (e *benv) expr(n ast.Expr) bex {
 			case "(encoding/binary.bigEndian).Uint16":
 				a := e.expr(v.Args[0])
 				return e.flatten(e.combine([]bex{a}, func(s []string) string { return "(g_be16 " + s[0] + ")" }))
+			case "(encoding/binary.bigEndian).Uint32":
+				a := e.expr(v.Args[0])
+				return e.flatten(e.combine([]bex{a}, func(s []string) string { return "(g_be32 " + s[0] + ")" }))
+			case "(encoding/binary.bigEndian).Uint64":
+				a := e.expr(v.Args[0])
+				return e.flatten(e.combine([]bex{a}, func(s []string) string { return "(g_be64 " + s[0] + ")" }))
 			case "bytes.Index":
 				a, b := e.expr(v.Args[0]), e.expr(v.Args[1])
 				return e.combine([]bex{a, b}, func(s []string) string { return "(g_bytes_index " + s[0] + " " + s[1] + ")" })
@@ -504,6 +560,10 @@ func (e *benv) block(stmts []ast.Stmt, ret func([]ast.Expr) string, cont func() 
 		switch full {
 		case "(encoding/binary.bigEndian).PutUint16":
 			return bindv(did.Name, e.flatten(e.combine([]bex{off, src}, func(a []string) string { return "(g_put16 " + cur + " " + a[0] + " " + a[1] + ")" })))
+		case "(encoding/binary.bigEndian).PutUint32":
+			return bindv(did.Name, e.flatten(e.combine([]bex{off, src}, func(a []string) string { return "(g_putn 4 " + cur + " " + a[0] + " " + a[1] + ")" })))
+		case "(encoding/binary.bigEndian).PutUint64":
+			return bindv(did.Name, e.flatten(e.combine([]bex{off, src}, func(a []string) string { return "(g_putn 8 " + cur + " " + a[0] + " " + a[1] + ")" })))
 		case "copy":
 			return bindv(did.Name, e.flatten(e.combine([]bex{off, src}, func(a []string) string { return "(g_copy " + cur + " " + a[0] + " " + a[1] + ")" })))
 		}
@@ -663,11 +723,25 @@ func sortStrings(a []string) {
 	}
 }
 
+var fixedFuncs = []bfnSpec{
+	{"FP1220", "Float64"}, {"FP1220", "FromFloat64"}, {"FP1632", "Float64"}, {"FP1632", "FromFloat64"},
+}
+
 func (x *xl) bytesFns(w *bytes.Buffer) {
 	w.WriteString("(* GENERATED by go/xlate (bytesfn.go) from message.go, mtdata2.go, scanmessages.go: the byte-slice functions,\n   statement by statement, in the Go fragment of Base/GoBytes.v.  Do not edit. *)\n")
 	w.WriteString("From Coq Require Import ZArith NArith List Bool.\nRequire Import XS.Base.Bytes XS.Base.GoInt XS.Base.GoBytes.\nImport ListNotations.\nOpen Scope Z_scope.\n\n")
+	x.renderFns(w, bytesFuncs)
+}
+
+func (x *xl) fixedFns(w *bytes.Buffer) {
+	w.WriteString("(* GENERATED by go/xlate (bytesfn.go) from fixedpoint.go: the fixed-point conversions, statement by statement, in the\n   Go fragment of Base/GoBytes.v with the floating-point operations of Base/GoFloat.v (Flocq).  Do not edit. *)\n")
+	w.WriteString("From Coq Require Import ZArith NArith List Bool.\nFrom Flocq Require Import Core BinarySingleNaN.\nRequire Import XS.Base.Bytes XS.Base.GoInt XS.Base.GoBytes XS.Base.GoFloat.\nImport ListNotations.\nOpen Scope Z_scope.\n\n")
+	x.renderFns(w, fixedFuncs)
+}
+
+func (x *xl) renderFns(w *bytes.Buffer, list []bfnSpec) {
 	known := map[string]bool{}
-	for _, sp := range bytesFuncs {
+	for _, sp := range list {
 		item := "byte function " + sp.recv + "." + sp.name
 		fd := x.findFunc(sp.recv, sp.name)
 		coqName := bfnName(sp.recv, sp.name)
@@ -709,6 +783,14 @@ func (x *xl) bytesFns(w *bytes.Buffer) {
 				}
 			}
 		}
+		// a method on a pointer receiver that returns nothing: its effect is the receiver's final value
+		recvResult := ""
+		if len(rkinds) == 0 && fd.Recv != nil && len(fd.Recv.List) == 1 && len(fd.Recv.List[0].Names) == 1 {
+			if _, isPtr := fd.Recv.List[0].Type.(*ast.StarExpr); isPtr && bkind(x.info.TypeOf(fd.Recv.List[0].Type)) == "bytes" {
+				recvResult = fd.Recv.List[0].Names[0].Name
+				rkinds = []string{"bytes"}
+			}
+		}
 		rtypes := make([]string, len(rkinds))
 		for i, k := range rkinds {
 			rtypes[i] = coqKind(k)
@@ -737,7 +819,11 @@ func (x *xl) bytesFns(w *bytes.Buffer) {
 			})
 			return c.monadic()
 		}
-		body := e.block(fd.Body.List, ret, nil)
+		var fall func() string
+		if recvResult != "" {
+			fall = func() string { return "(Val " + e.vars[recvResult] + ")" }
+		}
+		body := e.block(fd.Body.List, ret, fall)
 		if !e.ok {
 			body = "Pan"
 		}
